@@ -209,6 +209,14 @@ from . import initial
 
 from . import casts
 
+from . import mustcall
+
+
+def _c05_o3(W, ob):
+    from . import c05
+    return c05.o3(W, ob)
+
+
 OBLIGATIONS = [
     ('C06.O1', 'broadcast cursor', 'next_spectator_frame is written only by the broadcast (+1, after the sends of its frame, '
      'once per fetched frame); frames are fetched with confirmed_inputs(cursor) and sent only while cursor <= confirmed frame.', o1),
@@ -220,7 +228,9 @@ OBLIGATIONS = [
     ('C06.O5', 'spectators do not perturb players', 'effect summary of the broadcast is confined to cursor, spectator endpoints and '
      'socket; the spectator arm of disconnect_player_at_frame only stops the endpoint.', o5),
     ('C06.O6', 'same cut-off predicate on host and spectator (= C03.O2)', 'see C03.O2', c03.o2),
+    ('C06.O7', 'the host->spectator stream is the acknowledged input stream (= C05.O3)', 'spectators receive confirmed inputs over the same resend-until-acknowledged stream as players: last_acked_input -- the delta base and the continuity check of the next packet -- is the NEWEST acknowledged input, set only where inputs leave the resend queue; see C05.O3', _c05_o3),
     ('C06.H', 'helpers the rules above rely on', 'the bodies of the helpers named by this property\'s rules compute what the rules assume (registry_counts, confirmed_input); see rules/helpers.py', helpers.bundle('registry_counts', 'confirmed_input', 'from_inputs')),
     ('C06.I', 'initial state', 'every constructor gives the fields this property\'s rules interpret (NULL_FRAME = none / nothing yet, 0 = first frame, latches open, typestate start) the value listed in tables/initial_state.json; every field compared with NULL_FRAME anywhere is listed; see rules/initial.py', initial.rule_for('C06')),
     ('C06.C', 'lossy integer casts', 'every sign-changing cast (signed -> unsigned; NULL_FRAME is -1) and every narrowing cast to < 32 bits or from 128 bits in the crate is in range by a dominating guard, by the shape of its operand, or listed with a reason in tables/casts.json; see rules/casts.py', casts.rule),
+    ('C06.M', 'must-call floor', 'the calls listed for this property in tables/must_call.json are made on every path from the entry of their function to a normal return (interprocedural must-call): a new early return, fast path or extra condition in front of one of them is reported; see rules/mustcall.py', mustcall.rule_for('C06')),
 ]
